@@ -125,6 +125,32 @@ Theorem respell_owner : forall c s co ov n t toks lerr,
 Proof. exact respell_owner_proof. Qed.
 Print Assumptions respell_owner.
 
+(* $ORIGIN-relative versus absolute names: a record line may spell its owner relative to the
+   current origin, absolutely, or (for the origin itself) as "@"; likewise every domain name
+   inside RDATA.  For every valid name over all 256 octet values. *)
+Theorem respell_origin_relative : forall c s co (n : name) toks lerr,
+  corigin s = Some co ->
+  Valid n -> AllBytes n -> is_absolute n = false ->
+  AllBytes co -> is_absolute co = true -> Valid (n ++ co) ->
+  rr_line c s false (TId (NameM.to_text n) :: toks) lerr =
+  rr_line c s false (TId (NameM.to_text (n ++ co)) :: toks) lerr.
+Proof. exact respell_origin_relative_proof. Qed.
+Print Assumptions respell_origin_relative.
+
+Theorem respell_origin_at : forall c s co toks lerr,
+  corigin s = Some co -> Valid co -> AllBytes co -> is_absolute co = true ->
+  rr_line c s false (TId [64] :: toks) lerr = rr_line c s false (TId (NameM.to_text co) :: toks) lerr.
+Proof. exact respell_origin_at_proof. Qed.
+Print Assumptions respell_origin_at.
+
+Theorem respell_rdata_name_relative : forall (n co : name) rel zo ks toks,
+  Valid n -> AllBytes n -> is_absolute n = false ->
+  AllBytes co -> is_absolute co = true -> Valid (n ++ co) ->
+  parse_fields (KName :: ks) (TId (NameM.to_text n) :: toks) co rel zo =
+  parse_fields (KName :: ks) (TId (NameM.to_text (n ++ co)) :: toks) co rel zo.
+Proof. exact respell_rdata_name_relative_proof. Qed.
+Print Assumptions respell_rdata_name_relative.
+
 (* Parenthesised multi-line versus single-line records (and any other re-layout of a logical
    line): two layouts with the same tokens - blanks, tabs, parentheses with embedded newlines,
    comments - are read alike, at the level of the character stream, for every reader state and
